@@ -203,17 +203,21 @@ def impl_plot(case):
     added = []
     orig = K.PlotHaplotypeBlock
 
-    def rec(block, hapnum, chrom_order, colors, ax, clipmask_perchrom=None):
+    def rec(*a, **k):
         # what is recorded is the artist that actually lands on the axes: its x-extent and its colour
         import matplotlib.colors as mc
 
-        n0 = len(ax.collections)
-        r = orig(block, hapnum, chrom_order, colors, ax, clipmask_perchrom)
-        for col in ax.collections[n0:]:
-            xs = [v[0] for v in col.get_paths()[0].vertices[:4]]
-            fc = tuple(round(float(x), 6) for x in col.get_facecolor()[0])
-            pops = [p for p, cname in colors.items() if tuple(round(float(x), 6) for x in mc.to_rgba(cname)) == fc]
-            added.append([pops[0] if len(pops) == 1 else f"colour:{fc}", int(block["chrom"]), round(min(xs) * 10000), round(max(xs) * 10000), hapnum])
+        with C.glue("recording PlotHaplotypeBlock (entry)"):
+            A = C.bind_args(orig, a, k)
+            block, hapnum, colors, ax = C.need(A, "block", "hapnum", "colors", "ax")
+            n0 = len(ax.collections)
+        r = orig(*a, **k)
+        with C.glue("recording PlotHaplotypeBlock (exit)"):
+            for col in ax.collections[n0:]:
+                xs = [v[0] for v in col.get_paths()[0].vertices[:4]]
+                fc = tuple(round(float(x), 6) for x in col.get_facecolor()[0])
+                pops = [p for p, cname in colors.items() if tuple(round(float(x), 6) for x in mc.to_rgba(cname)) == fc]
+                added.append([pops[0] if len(pops) == 1 else f"colour:{fc}", int(block["chrom"]), round(min(xs) * 10000), round(max(xs) * 10000), hapnum])
         return r
 
     K.PlotHaplotypeBlock = rec
